@@ -108,6 +108,7 @@ type FlatCfg struct {
 	Wait    time.Duration       `dials:"wait"`
 	Tags    map[string]struct{} `dials:"tags"`
 	Guard   string              `dials:"guard"`
+	Verbose bool                `dials:"verbose"`
 }
 
 func (c *FlatCfg) ConfigPath() (string, bool) { return c.CfgPath, c.CfgPath != "" }
